@@ -63,6 +63,18 @@ CHECKS.update({
         "Zones up to 1e6 pixels in quick, 2.5e7 in thorough.", "7/C16"),
 })
 
+CHECKS.update({
+    "C07": _c("tlc-spi", "TLC model check of the gammastd skeleton (spec/SpiPixel.tla) + TLC trace validation: exact p0 and fitted sample, mixture u = p0 + (1-p0) G with G from scipy.stats recorded in the trace, rounded normal quantile decided by an inversion-free bracket in a normal table",
+        "TLC checks the counting loop, fit-sample selection and case split of gammastd against their declarative definitions on all small series/windows, and decides every recorded pixel of gammastd_yxt / gammastd_grp / hdc.algo.spi: it recomputes the zero share and WHICH cells are fitted exactly, verifies that SciPy's oracle fitted that same sample, forms the mixture with SciPy's CDF / survival values (the independent evaluation the property names) and requires the reported index s to satisfy Phi((2s-1)/2000) <= u <= Phi((2s+1)/2000) in the tail that carries the precision.",
+        "The gamma MLE / CDF values are SciPy's (scipy.stats.gamma.fit/cdf/sf), not computed by TLC; float32 inputs are held to an interval widened by the worst-case effect of single-precision logarithms; |index| > 7000 is left to C08.", "7/C07"),
+    "C08": _c("tlc-spi", "TLC trace validation of degenerate / extreme pixels against spec/SpiPixel.tla (Total, NodataRule, UnfittablePixelIsNodata, Monotone, Saturates)",
+        "Cubes mixing an ordinary pixel with all-nodata, all-negative, all-zero, >90% zeros, constant, low-variance and outlier pixels are run through both kernels and the accessor; TLC decides per pixel: no exception for the whole call, nodata and negative cells yield nodata, an unfittable pixel is nodata everywhere, indices are non-decreasing in the observation (equal observations equal indices), and an observation whose exact index lies beyond +-7000 (from the oracle's tail probabilities) stays beyond 6999 on its side instead of wrapping or becoming 0.",
+        "Same trusted base as C07; saturation is asserted relative to the oracle's tail probability, not to a particular clamp value.", "7/C08"),
+    "C09": _c("tlc-spi-accessor", "TLC exhaustive model check of spec/SpiAccessor.tla (searchsorted = inclusive window, validity tests = MustRaise, scatter/gather = per-group decomposition) + TLC validation of get_calibration_indices / hdc.algo.spi calls",
+        "TLC checks on every sorted axis up to 5/6 steps, every begin/end and every labeling with up to 3 groups that the binary-search index pair delimits exactly {t : begin <= t <= end}, that the code's validity tests coincide with the contract's invalid windows, and that the grouped driver equals the per-group ungrouped index with an uninterpreted per-series function. Real calls are decided by TLC: ValueError iff the window is invalid (per group), recorded attributes, ungrouped output equal to the kernel output for the contract's index pair (neighbouring pairs are recorded, TLC selects), grouped output equal cell by cell to ungrouped calls on each group's sub-cube, invariance under respelling the labels ('10' < '2' strings, letters, floats), single group = ungrouped.",
+        "SPI values themselves are uninterpreted here (C07).", "7/C09"),
+})
+
 NOT_YET = "check not built yet in this round (see DESIGN.md section 11 for the build order)"
 
 
